@@ -193,6 +193,13 @@ func vf15Init(thorough bool) {
 			vf15Toks = append(vf15Toks, vfTok{verb: v, width: w})
 		}
 	}
+	// widths whose low byte / low 16 bits are small (a width narrowed to a smaller integer type would wrap)
+	for _, v := range []byte{'d', 'x', 'o'} {
+		for _, w := range []int{256, 260, 65541} {
+			vf15Toks = append(vf15Toks, vfTok{verb: v, width: w})
+		}
+	}
+	vf15Toks = append(vf15Toks, vfTok{verb: 's', width: 258})
 	vf15Toks = append(vf15Toks, vfTok{verb: 't', width: -1}, vfTok{verb: 't', width: 7}, vfTok{verb: 's', width: 1000000})
 	vf15Args = []interface{}{
 		uint8(0), uint8(1), uint8(255), uint16(0), uint16(65535), uint32(0), uint32(1<<32 - 1), uint64(0), uint64(1), uint64(1<<64 - 1), uintptr(0), uintptr(1 << 63), uintptr(1<<64 - 1),
@@ -469,6 +476,6 @@ func TestVerifC15(t *testing.T) {
 		}
 		run.Count("allocation_batch_cases", int64(len(batch)))
 	}
-	run.Finish(true, fmt.Sprintf("format = 1-2 tokens (full product) and 3 tokens (third token free, boundary arguments) over %d tokens {literal, %%%%, %%d/%%x/%%o/%%s with width {absent,0,1,5,31,32,33,1000}, %%t, %%1000000s} x %d argument values (every built-in integer type at 0, +-1, min, max; strings/byte slices of length 0..40; bool; float, nil, struct, uint as wrong types) incl. too-short and too-long argument lists; the 1-token x argument and 2-token x first-argument products again with no sink set (Printf / Fprintf(nil) into the early ring buffer, handed to the first sink); every format string of length <=%d over 9 bytes with 0-2 arguments (no panic); allocation counter over a %s batch", nt, na, maxLen, "pre-built"),
+	run.Finish(true, fmt.Sprintf("format = 1-2 tokens (full product) and 3 tokens (third token free, boundary arguments) over %d tokens {literal, %%%%, %%d/%%x/%%o/%%s with width {absent,0,1,5,31,32,33,1000}, integer widths {256,260,65541}, %%258s, %%t, %%1000000s} x %d argument values (every built-in integer type at 0, +-1, min, max; strings/byte slices of length 0..40; bool; float, nil, struct, uint as wrong types) incl. too-short and too-long argument lists; the 1-token x argument and 2-token x first-argument products again with no sink set (Printf / Fprintf(nil) into the early ring buffer, handed to the first sink); every format string of length <=%d over 9 bytes with 0-2 arguments (no panic); allocation counter over a %s batch", nt, na, maxLen, "pre-built"),
 		"distinct = distinct single-token outputs; every case compares byte-exact against the reference formatter through a non-storing sink")
 }
